@@ -6,7 +6,7 @@
     missing part, `TypeError` when the walk reaches a number / `None` (`dict(5)`).  `d[k1, k2]` and `d[[k1, k2]]` go through `d[k]`,
     so `d[['a.x']]` is the mapping `{'a.x': d['a']['x']}`.
   * `d - (k1, ..., kn)` (`__sub__` with a tuple, :62-70): a PATH; the last key is deleted in the branch the other keys lead to,
-    nothing happens when the path leaves the tree.  (Since fix 7fc5d6d the branches on the path are copied, so `d` is unchanged;
+    nothing happens when the path leaves the tree.  (Since fix cd42bbe the branches on the path are copied, so `d` is unchanged;
     the model is a pure function.)  `TypeError` when the path runs into a number / `None` (`'x' in 5`).
 -/
 import PygModel.Tree
